@@ -463,6 +463,15 @@ impl World {
                 let mut code = "-".to_string();
                 let mut cd = "-".to_string();
                 let mut rt = "-".to_string();
+                // every user property, raw: `<key>~<value>` (payload encoding) joined by ';'
+                let up: Vec<String> = props
+                    .iter()
+                    .filter_map(|p| match p {
+                        Prop::Pair(k, v) => Some(format!("{}~{}", enc_payload(k), enc_payload(v))),
+                        _ => None,
+                    })
+                    .collect();
+                let up = if up.is_empty() { "-".to_string() } else { up.join(";") };
                 for p in &props {
                     match p {
                         Prop::Str(0x08, s) => rt = enc_payload(s),
@@ -474,7 +483,7 @@ impl World {
                     }
                 }
                 self.log.push(format!(
-                    "PUB(t={},p={},q={},r={},d={},code={},cd={},rt={})",
+                    "PUB(t={},p={},q={},r={},d={},code={},cd={},rt={},up={})",
                     enc_payload(topic),
                     enc_payload(payload),
                     qos,
@@ -482,7 +491,8 @@ impl World {
                     dup,
                     code,
                     cd,
-                    rt
+                    rt,
+                    up
                 ));
                 if qos == 1 {
                     self.unacked.push_back(pid?);
